@@ -113,6 +113,33 @@ var importers = []importerSpec{
 			}
 			return csvBytes(',', recs)
 		}},
+	{Name: "ch.swisscard", Args: []string{"--account", "Liabilities:CreditCard"}, Account: "Liabilities:CreditCard",
+		Write: func(rows []stRow) []byte {
+			recs := [][]string{{"Transaction Date", " Posting Date", " Card Number ", "Billing Amount", " Description", " Merchant City ", " Merchant State ", " Merchant Zip ", " Reference Number ", " Debit/Credit Flag ", " SICMCC Code"}}
+			for _, r := range rows {
+				// the card statement shows charges as positive amounts: the effect on the liability account is the negation
+				v := -r.Amt
+				neg := v < 0
+				if neg {
+					v = -v
+				}
+				ip := fmt.Sprint(v / 100)
+				var g []string
+				for len(ip) > 3 {
+					g = append([]string{ip[len(ip)-3:]}, g...)
+					ip = ip[:len(ip)-3]
+				}
+				g = append([]string{ip}, g...)
+				a := fmt.Sprintf("CHF%s.%02d", strings.Join(g, "'"), v%100)
+				flag := "D"
+				if neg {
+					a = "-" + a
+					flag = "C"
+				}
+				recs = append(recs, []string{dmy(r.Z), dmy(r.Z + 1), "1234", a, r.Text, "ZURICH", "CHE", "8003", "42", flag, "5411"})
+			}
+			return csvBytes(',', recs)
+		}},
 	{Name: "revolut2", Args: []string{"--account", "Assets:Revolut", "--fee", "Expenses:Fees"}, Account: "Assets:Revolut", Fee: true, Multi: true,
 		Write: func(rows []stRow) []byte {
 			recs := [][]string{{"Type", "Product", "Started Date", "Completed Date", "Description", "Amount", "Fee", "Currency", "State", "Balance"}}
@@ -250,7 +277,7 @@ func observeImport(bin, root string, id int, im importerSpec, rows []stRow) map[
 
 func C13(c *core.Ctx) {
 	c.Ev.Level = "exploration"
-	c.Set("rule", "abstract statements (1-8 booking rows: dates, signs, amounts with two decimals up to 10^6, 1-3 currencies where the format allows, fees and running balances where the format carries them, free text of 8 classes incl. double quotes, separators, Unicode, leading blanks, tabs) rendered by one format writer per covered importer (ch.postfinance, ch.supercard, ch.swisscard2, revolut2); uncovered importers: ch.cumulus, ch.swisscard, revolut, com.wise, ch.viac, ch.swissquote, us.interactivebrokers (only their repository statements are exercised, by C06); distinct by statement bytes; non-trivial = >= 2 rows and >= 1 negative amount or special-character text")
+	c.Set("rule", "abstract statements (1-8 booking rows: dates, signs, amounts with two decimals up to 10^6, 1-3 currencies where the format allows, fees and running balances where the format carries them, free text of 8 classes incl. double quotes, separators, Unicode, leading blanks, tabs) rendered by one format writer per covered importer (ch.postfinance, ch.supercard, ch.swisscard, ch.swisscard2, revolut2); uncovered importers: ch.cumulus, revolut, com.wise, ch.viac, ch.swissquote, us.interactivebrokers (only their repository statements are exercised, by C06); distinct by statement bytes; non-trivial = >= 2 rows and >= 1 negative amount or special-character text")
 	c.Trusted("TLC + Json module", "the four statement writers (the only format-specific harness code)", "knut's parser/checker/printer as readers of the importer output (cross-checked against the abstract rows)")
 	c.MC("MC_Lifecycle", c.TierCfg("MC_Lifecycle"), 16, 40*time.Minute)
 	bin := c.Knut("")
@@ -313,8 +340,8 @@ func C13(c *core.Ctx) {
 	}
 	c.Add("evaluations", len(cases))
 	c.Add("distinct_nontrivial", nt)
-	c.Set("importers_covered", []string{"ch.postfinance", "ch.supercard", "ch.swisscard2", "revolut2"})
-	c.Set("importers_uncovered", []string{"ch.cumulus", "ch.swisscard", "revolut", "com.wise", "ch.viac", "ch.swissquote", "us.interactivebrokers"})
+	c.Set("importers_covered", []string{"ch.postfinance", "ch.supercard", "ch.swisscard", "ch.swisscard2", "revolut2"})
+	c.Set("importers_uncovered", []string{"ch.cumulus", "revolut", "com.wise", "ch.viac", "ch.swissquote", "us.interactivebrokers"})
 	c.Sample(map[string]any{"importer": cases[0]["importer"], "statement": cases[0]["statement"], "output": cases[0]["stdout"]})
 	c.JudgeAndReport("Trace_Importer", "Trace_Importer.cfg", cases, 16,
 		func(old map[string]any) map[string]any {
